@@ -18,7 +18,8 @@ RULE = ('plugin kinds: resource provider, decorator, logger, span processor, met
         'raises, switched off by PLUGIN_<NAME>=False; sets of size <= 3 x orders {ascending, descending, equal, None}; scenario: start, '
         'one hit (snapshot+log+metric+span), span close, shutdown; faults: each of the N dynamic seam calls (resource, decorate, '
         'log_tracepoint, create_span, span.close, metric op, shutdown) raises once; non-trivial = the fault was actually reached and at '
-        'least one other plugin was present')
+        'least one other plugin was present'
+        ' ; activation given in code as bool / int / text (on and off), a plugin whose order() raises, and every seam of 4 representative sets failing with a BaseException')
 ASSUMPTIONS = ['faults are Exception subclasses raised by a concrete plugin method (every reported failure is realisable)',
                'built-in plugins are switched off (one separate row loads them as shipped); a plugin whose order() fails may be skipped or placed anywhere, the rest must load in order',
                'the failing plugin\'s own later calls are don\'t-cares']
